@@ -28,7 +28,35 @@ def heldOk {α : Type} (getId : α → String) (eqv : α → α → Bool) (loade
   held.all (fun h => held.count h == 1 && loaded.any (fun r => getId r == h)) &&
   loaded.all (fun r => loaded.any (fun r' => held.contains (getId r') && eqv r r'))
 
-def flowEqv (a b : World.FlowSpec) : Bool :=
+/-- remove the first element with the given id -/
+def eraseById {ρ : Type} (getId : ρ → String) : List ρ → String → List ρ
+  | [], _ => []
+  | x :: xs, i => if getId x == i then xs else x :: eraseById getId xs i
+
+/-- Reconstruct, from the controllers the implementation holds after a (re)load (`held`: the ids of the bound rules, in
+the order held), the order in which it processed the `loaded` rules. A held id is either the id of an old controller
+that was reused for an equal loaded rule, or the id of a loaded rule that got a new controller. Rules left over must be
+equal to a processed one (a rule given under two ids may be kept once). -/
+def adoptOrder {ρ κ : Type} (getId : ρ → String) (getIdK : κ → String) (sameRule : ρ → κ → Bool) (eqv : ρ → ρ → Bool)
+    (loaded : List ρ) (old : List κ) (held : List String) : Option (List ρ) :=
+  let rec go (un : List ρ) (oldLeft : List κ) (acc : List ρ) : List String → Option (List ρ)
+    | [] => if un.all (fun r => acc.any (fun a => eqv r a)) then some acc.reverse else none
+    | h :: rest =>
+      -- a reused old controller?
+      match oldLeft.find? (fun o => getIdK o == h && un.any (fun r => sameRule r o)) with
+      | some o =>
+        -- which of the (equal) loaded rules stands behind the reused controller: prefer one whose id does not show up later as a
+        -- newly built controller
+        match (un.find? (fun r => sameRule r o && !rest.contains (getId r))).orElse (fun _ => un.find? (fun r => sameRule r o)) with
+        | some r => go (eraseById getId un (getId r)) (oldLeft.filter (fun x => getIdK x != h)) (r :: acc) rest
+        | none => none
+      | none =>
+        match un.find? (fun r => getId r == h) with
+        | some r => go (eraseById getId un (getId r)) oldLeft (r :: acc) rest
+        | none => none
+  go loaded old [] held
+
+def flowEqv (a b : FlowSpec) : Bool :=
   a.thr == b.thr && a.ivl == b.ivl && a.warmUp == b.warmUp && a.throttling == b.throttling && a.period == b.period &&
   a.coldFactor == b.coldFactor && a.maxQueueMs == b.maxQueueMs
 def isoEqv (a b : IsoRule) : Bool := a.thr == b.thr
@@ -80,7 +108,7 @@ structure SpecSt where
   phase : Option (String × Nat × Nat × Nat × Nat × Nat) := none  -- (kind, q, p, c, per, start ms) of the demand phase being watched
   brs : List (String × List SBreaker) := []            -- Spec breakers per resource, implementation order
   brHooks : List (Nat × List String) := []             -- entry -> breakers it probes
-  thrN : List (String × List World.FlowSpec) := []     -- resources all of whose flow rules are direct/throttling (implementation order)
+  thrN : List (String × List FlowSpec) := []     -- resources all of whose flow rules are direct/throttling (implementation order)
   thrLast : List (String × Nat) := []                  -- resource/rule -> scheduled time (ns) of the last admitted request
   deriving Inhabited
 
@@ -106,7 +134,26 @@ def openInbound (sp : SpecSt) : Nat := (sp.open_.filter (fun e => e.2.2.2.1)).le
 structure St where
   w : World := {}
   sp : SpecSt := {}
+  sh : World := {}                 -- shadow: the same history with every reload of an unchanged rule set left out (C11 Spec)
+  reloaded : List String := []     -- resources whose rules were loaded more than once
+  loadedOnce : List String := []
   deriving Inhabited
+
+/-- multiset equality under an equivalence -/
+def msetEq {α β : Type} (eqv : α → β → Bool) (a : List α) (b : List β) : Bool :=
+  a.length == b.length &&
+  (a.foldl (fun (acc : Option (List β)) x => match acc with
+    | none => none
+    | some l => match l.findIdx? (fun y => eqv x y) with
+      | some i => some (l.eraseIdx i)
+      | none => none) (some b)).isSome
+
+/-- a (re)load of resource `key`: first load or reload? -/
+def noteLoad (st : St) (key : String) : St :=
+  if st.loadedOnce.contains key then
+    -- from now on only the correspondence and the transparency Spec apply to this resource
+    { st with reloaded := if st.reloaded.contains key then st.reloaded else key :: st.reloaded }
+  else { st with loadedOnce := key :: st.loadedOnce }
 
 /-- the system slot's observation computed from the implementation's own pass / exit history of inbound entries -/
 def specSysObs (sp : SpecSt) (t : Nat) : SysObs :=
@@ -218,9 +265,9 @@ def hsExpect (sp : SpecSt) (res : String) (nowNs batch : Nat) (args : Option (Li
 /-- Spec of flow throttling for a resource whose rules are all direct/throttling, evaluated on the implementation's
 observation: every rule keeps its own schedule; a request is queued behind every rule in turn (only if that rule's wait
 is within its maximum queueing time, rejected otherwise) and the caller is held until the last scheduled time. -/
-def specThrottleN (sp : SpecSt) (res : String) (rules : List World.FlowSpec) (nowNs batch : Nat) (obs : String) (dtObs : Nat) :
+def specThrottleN (sp : SpecSt) (res : String) (rules : List FlowSpec) (nowNs batch : Nat) (obs : String) (dtObs : Nat) :
     SpecSt × Option String :=
-  let rec go (sp : SpecSt) (t : Nat) : List World.FlowSpec → SpecSt × Option String
+  let rec go (sp : SpecSt) (t : Nat) : List FlowSpec → SpecSt × Option String
     | [] =>
       -- every rule admitted the request
       if obs != "pass" then (sp, some s!"rejected although every throttling rule can queue the request within its maximum queueing time: {obs}")
@@ -258,7 +305,7 @@ def renderNode (n : Node) (now : Nat) : String :=
   s!"s={natsStr (kinds.map (fun k => n.sum rd now k))} conc={n.conc} m={n.ring.minRt globalGeo rd now} " ++
   s!"q={(n.ring.qpsWithTime globalGeo rd now .pass).toStr} a={(n.ring.avgRt globalGeo rd now).toStr}"
 
-def parseFlowRules (l : List String) : Except String (List World.FlowSpec) :=
+def parseFlowRules (l : List String) : Except String (List FlowSpec) :=
   l.mapM (fun s =>
     let p := s.splitOn ":"
     let g := fun (i : Nat) (d : String) => (p[i]?).getD d
@@ -381,7 +428,7 @@ def specNode (sp : SpecSt) (name : String) (t : Nat) (obs : String) : Option Str
   else if obsField obs "m" != toString (windowMinRt 500 evs lo hi) then some s!"node {name} min rt {obsField obs "m"} differs from the history {windowMinRt 500 evs lo hi}"
   else none
 
-def stepCase (st : St) (v : Verdict) (i : Nat) (opText obs : String) : St × Verdict :=
+partial def stepCase (st : St) (v : Verdict) (i : Nat) (opText obs : String) : St × Verdict :=
   let op := Op.parse opText
   let bad (m : String) : St × Verdict := (st, v.setDiff s!"step={i} {m} [{opText}]")
   let w := st.w
@@ -389,7 +436,7 @@ def stepCase (st : St) (v : Verdict) (i : Nat) (opText obs : String) : St × Ver
   match op.name with
   | "clock" =>
     match (obsField obs "t").toNat? with
-    | some t => ({ st with w := { w with nowNs := t } }, v)
+    | some t => ({ st with w := { w with nowNs := t }, sh := { st.sh with nowNs := t } }, v)
     | none => bad "bad-obs"
   | "note" =>
     let v := v.expect i opText "ok" obs
@@ -427,35 +474,61 @@ def stepCase (st : St) (v : Verdict) (i : Nat) (opText obs : String) : St × Ver
     | none => (st, v)
   | "adv" =>
     match op.natD "ns" 0, op.natD "ms" 0 with
-    | .ok ns, .ok ms => ({ st with w := { w with nowNs := w.nowNs + ns + ms * 1000000 } }, v.expect i opText "ok" obs)
+    | .ok ns, .ok ms => ({ st with w := { w with nowNs := w.nowNs + ns + ms * 1000000 }, sh := { st.sh with nowNs := st.sh.nowNs + ns + ms * 1000000 } }, v.expect i opText "ok" obs)
     | _, _ => bad "bad-op"
+  | "flow.loadall" | "hs.loadall" | "br.loadall" =>
+    -- one call replaces the rules of every resource of the family: treated resource by resource
+    let fam := (op.name.splitOn ".").headD ""
+    let items := (op.list "rules").filterMap (fun it => splitFirst it "/")
+    let held := (listOf (obsField obs "held") "|").filterMap (fun h => splitFirst h ":")
+    let heldKey := if fam == "br" then "breakers" else "ctrls"
+    let v := v.addTag "load-all"
+    held.foldl (fun (acc : St × Verdict) (h : String × String) =>
+      let specs := ",".intercalate ((items.filter (fun it => it.1 == h.1)).map (·.2))
+      stepCase acc.1 acc.2 i s!"{fam}.load res={h.1} rules={specs}" s!"ret=- {heldKey}={h.2}") (st, v)
   | "flow.load" =>
     match op.str "res", parseFlowRules (op.list "rules") with
     | .ok res, .ok rules =>
       let ids := listOf (obsField obs "ctrls")
-      if !heldOk (·.id) flowEqv rules ids then
-        (st, v.setDiff s!"step={i} op=[{opText}] controllers held by the implementation are not the loaded rules: [{obs}]")
-      else
-        let rules' := reorder (·.id) rules ids
+      match adoptOrder (·.id) (fun (c : FlowCtrl) => c.id) (fun (r : FlowSpec) (c : FlowCtrl) => match c.spec with | some s => r.eqv s | none => false)
+          flowEqv rules (w.ctrls res) ids with
+      | none =>
+        -- the Spec side goes on with the rules as given: a changed rule must take effect on the very next entry
+        let same := msetEq (fun (r : FlowSpec) (c : FlowCtrl) => match c.spec with | some s => r.eqv s | none => false) rules (st.sh.ctrls res)
+        let st := noteLoad (noteLoad st ("flow/" ++ res)) ("flow/" ++ res)
+        ({ st with w := w.loadFlow res rules, sh := if same then st.sh else st.sh.loadFlow res rules, sp := { sp with other := res :: sp.other } },
+          v.setDiff s!"step={i} op=[{opText}] controllers held by the implementation cannot result from the loaded rules: [{obs}]")
+      | some rules' =>
         let w' := w.loadFlow res rules'
-        let plain := rules'.all (fun r => !r.warmUp && !r.throttling)
-        let srules := (rules'.filter (fun r => !r.warmUp && !r.throttling)).map (fun r => let g := ruleGeometry r.ivl
+        let v := if (w'.ctrls res).map (·.id) != ids then
+            v.setDiff s!"step={i} op=[{opText}] model holds controllers {(w'.ctrls res).map (·.id)}, implementation {ids}" else v
+        -- shadow: a reload of an equal rule set (ids and order aside) is left out
+        let same := msetEq (fun (r : FlowSpec) (c : FlowCtrl) => match c.spec with | some s => r.eqv s | none => false) rules' (st.sh.ctrls res)
+        let sh' := if same then st.sh else st.sh.loadFlow res rules'
+        let v := if same && !(st.sh.ctrls res).isEmpty then v.addTag "reload-unchanged" else if st.loadedOnce.contains ("flow/" ++ res) then v.addTag "reload-changed" else v
+        let st := noteLoad st ("flow/" ++ res)
+        let isRe := st.reloaded.contains ("flow/" ++ res)
+        -- the held ids label the rules (a reused controller keeps the id of the rule it was first built for)
+        let labelled := (rules'.zip ids).map (fun p => ({ p.1 with id := p.2 } : FlowSpec))
+        let plain := labelled.all (fun r => !r.warmUp && !r.throttling)
+        let srules := (labelled.filter (fun r => !r.warmUp && !r.throttling)).map (fun r => let g := ruleGeometry r.ivl
           -- an unchanged private-window rule keeps its window (and its `since`)
           let old := ((World.lookup sp.flow res).getD []).find? (fun o => o.thr == r.thr && o.L == g.1 && o.W == g.2.1)
           ({ id := r.id, thr := r.thr, L := g.1, W := g.2.1, priv := g.2.2, since := match old with | some o => o.since | none => sp.seq } : SRule))
-        let sp := if plain then sp else { sp with other := res :: sp.other }
-        let sp := if !rules'.isEmpty && rules'.all (fun r => r.throttling && !r.warmUp) then { sp with thrN := World.update sp.thrN res rules' }
+        let sp := if plain && !isRe then sp else { sp with other := res :: sp.other }
+        let sp := if !isRe && !labelled.isEmpty && labelled.all (fun r => r.throttling && !r.warmUp) then { sp with thrN := World.update sp.thrN res labelled }
           else { sp with thrN := sp.thrN.filter (fun p => p.1 != res) }
-        let v := if rules'.any (·.throttling) then v.addTag "flow-throttling" else v
-        let v := if rules'.any (·.warmUp) then v.addTag "flow-warmup" else v
-        let sp := match rules' with
-          | [r] => if r.warmUp && !r.throttling && r.ivl == 0 then
-              { sp with warm := World.update sp.warm res (r.thr.toNatFloor, (if r.coldFactor ≤ 1 then 3 else r.coldFactor), r.period) } else sp
-          | _ => sp
+        let v := if labelled.any (·.throttling) then v.addTag "flow-throttling" else v
+        let v := if labelled.any (·.warmUp) then v.addTag "flow-warmup" else v
+        let sp := match labelled with
+          | [r] => if !isRe && r.warmUp && !r.throttling && r.ivl == 0 then
+              { sp with warm := World.update sp.warm res (r.thr.toNatFloor, (if r.coldFactor ≤ 1 then 3 else r.coldFactor), r.period) }
+              else { sp with warm := sp.warm.filter (fun p => p.1 != res) }
+          | _ => { sp with warm := sp.warm.filter (fun p => p.1 != res) }
         let v := if srules.any (·.priv) then v.addTag "private-window" else v
         let v := if srules.any (fun r => !r.priv && r.W != 1000) then v.addTag "reused-global-window" else v
         let v := if srules.length > 1 then v.addTag "several-rules" else v
-        ({ w := w', sp := { sp with flow := World.update sp.flow res srules } }, v)
+        ({ st with w := w', sh := sh', sp := { sp with flow := World.update sp.flow res srules } }, v)
     | _, _ => bad "bad-op"
   | "iso.load" =>
     match op.str "res", parseIsoRules (op.list "rules") with
@@ -465,7 +538,7 @@ def stepCase (st : St) (v : Verdict) (i : Nat) (opText obs : String) : St × Ver
         (st, v.setDiff s!"step={i} op=[{opText}] rules held by the implementation are not the loaded rules: [{obs}]")
       else
         let rules' := reorder (·.id) rules ids
-        ({ w := w.loadIso res rules', sp := { sp with iso := World.update sp.iso res rules' } }, v.addTag "isolation")
+        ({ st with w := w.loadIso res rules', sh := st.sh.loadIso res rules', sp := { sp with iso := World.update sp.iso res rules' } }, v.addTag "isolation")
     | _, _ => bad "bad-op"
   | "sys.load" =>
     match parseSysRules (op.list "rules") with
@@ -477,7 +550,7 @@ def stepCase (st : St) (v : Verdict) (i : Nat) (opText obs : String) : St × Ver
         let rules' := reorder (·.id) rules ids
         let v := if rules'.length < rules.length then v.addTag "equal-rule-kept-once" else v
         let v := if rules'.any (·.bbr) then v.addTag "bbr-rule" else v
-        ({ w := { w with sys := rules' }, sp := { sp with sys := rules' } }, v.addTag "system-rules")
+        ({ st with w := { w with sys := rules' }, sh := { st.sh with sys := rules' }, sp := { sp with sys := rules' } }, v.addTag "system-rules")
     | _ => bad "bad-op"
   | "sys.set" =>
     let getF := fun (k : String) (d : F64) => match op.get? k with
@@ -485,39 +558,77 @@ def stepCase (st : St) (v : Verdict) (i : Nat) (opText obs : String) : St × Ver
       | none => d
     let l := getF "load" w.load
     let c := getF "cpu" w.cpu
-    ({ w := { w with load := l, cpu := c }, sp := { sp with load := l, cpu := c } }, v.expect i opText "ok" obs)
+    ({ st with w := { w with load := l, cpu := c }, sh := { st.sh with load := l, cpu := c }, sp := { sp with load := l, cpu := c } }, v.expect i opText "ok" obs)
   | "hs.load" =>
     match op.str "res", parseHsRules (op.list "rules") with
     | .ok res, .ok rules =>
       let ids := listOf (obsField obs "ctrls")
-      if !heldOk (·.id) hsEqv rules ids then
-        (st, v.setDiff s!"step={i} op=[{opText}] controllers held by the implementation are not the loaded rules: [{obs}]")
-      else
-        let rules' := reorder (·.id) rules ids
-        let v := if rules'.any (fun r => !r.specific.isEmpty) then v.addTag "hotspot-override" else v
-        let v := if rules'.any (fun r => r.maxCap > 0) then v.addTag "hotspot-small-capacity" else v
-        -- the isolated-reference Spec presumes no eviction: it is applied when the capacity is the default
-        let sp := if rules'.all (fun r => r.maxCap == 0) then { sp with hs := World.update sp.hs res rules' } else sp
-        ({ w := w.loadHs res rules', sp := { sp with other := res :: sp.other } }, v.addTag "hotspot-rules")
+      match adoptOrder (·.id) (fun (c : HsCtrl) => c.rule.id) (fun (r : HsRule) (c : HsCtrl) => World.hsRuleEqv r c.rule) hsEqv rules (w.hsCtrls res) ids with
+      | none =>
+        let same := msetEq (fun (r : HsRule) (c : HsCtrl) => World.hsRuleEqv r c.rule) rules (st.sh.hsCtrls res)
+        let st := noteLoad (noteLoad st ("hs/" ++ res)) ("hs/" ++ res)
+        ({ st with w := w.loadHs res rules, sh := if same then st.sh else st.sh.loadHs res rules,
+                   sp := { sp with other := res :: sp.other, hs := sp.hs.filter (fun p => p.1 != res) } },
+          v.setDiff s!"step={i} op=[{opText}] controllers held by the implementation cannot result from the loaded rules: [{obs}]")
+      | some rules' =>
+        let w' := w.loadHs res rules'
+        let v := if (w'.hsCtrls res).map (·.rule.id) != ids then
+            v.setDiff s!"step={i} op=[{opText}] model holds controllers {(w'.hsCtrls res).map (·.rule.id)}, implementation {ids}" else v
+        let same := msetEq (fun (r : HsRule) (c : HsCtrl) => World.hsRuleEqv r c.rule) rules' (st.sh.hsCtrls res)
+        let sh' := if same then st.sh else st.sh.loadHs res rules'
+        let v := if same && !(st.sh.hsCtrls res).isEmpty then v.addTag "reload-unchanged" else if st.loadedOnce.contains ("hs/" ++ res) then v.addTag "reload-changed" else v
+        let st := noteLoad st ("hs/" ++ res)
+        let isRe := st.reloaded.contains ("hs/" ++ res)
+        let labelled := (rules'.zip ids).map (fun p => ({ p.1 with id := p.2 } : HsRule))
+        let v := if labelled.any (fun r => !r.specific.isEmpty) then v.addTag "hotspot-override" else v
+        let v := if labelled.any (fun r => r.maxCap > 0) then v.addTag "hotspot-small-capacity" else v
+        -- the isolated-reference Spec presumes no eviction and a single load
+        let sp := if !isRe && labelled.all (fun r => r.maxCap == 0) then { sp with hs := World.update sp.hs res labelled }
+          else { sp with hs := sp.hs.filter (fun p => p.1 != res) }
+        ({ st with w := w', sh := sh', sp := { sp with other := res :: sp.other } }, v.addTag "hotspot-rules")
     | _, _ => bad "bad-op"
   | "br.load" =>
     match op.str "res", parseBrRules (op.list "rules") with
     | .ok res, .ok rules =>
       let ids := listOf (obsField obs "breakers")
-      if !heldOk (·.id) brEqv rules ids then
-        (st, v.setDiff s!"step={i} op=[{opText}] breakers held by the implementation are not the loaded rules: [{obs}]")
-      else
-        let rules' := reorder (·.id) rules ids
-        let sbs : List SBreaker := rules'.map (fun r => { rule := r })
-        ({ w := w.loadBr res rules', sp := { sp with other := res :: sp.other, brs := World.update sp.brs res sbs } }, v.addTag "breaker-rules")
+      match adoptOrder (·.id) (fun (b : Breaker) => b.rule.id) (fun (r : BRule) (b : Breaker) => World.brRuleEqv r b.rule) brEqv rules (w.breakers res) ids with
+      | none =>
+        let same := msetEq (fun (r : BRule) (b : Breaker) => World.brRuleEqv r b.rule) rules (st.sh.breakers res)
+        let st := noteLoad (noteLoad st ("br/" ++ res)) ("br/" ++ res)
+        ({ st with w := w.loadBr res rules, sh := if same then st.sh else st.sh.loadBr res rules,
+                   sp := { sp with other := res :: sp.other, brs := sp.brs.filter (fun p => p.1 != res) } },
+          v.setDiff s!"step={i} op=[{opText}] breakers held by the implementation cannot result from the loaded rules: [{obs}]")
+      | some rules' =>
+        let w' := w.loadBr res rules'
+        let v := if (w'.breakers res).map (·.rule.id) != ids then
+            v.setDiff s!"step={i} op=[{opText}] model holds breakers {(w'.breakers res).map (·.rule.id)}, implementation {ids}" else v
+        let same := msetEq (fun (r : BRule) (b : Breaker) => World.brRuleEqv r b.rule) rules' (st.sh.breakers res)
+        let sh' := if same then st.sh else st.sh.loadBr res rules'
+        let v := if same && !(st.sh.breakers res).isEmpty then v.addTag "reload-unchanged" else if st.loadedOnce.contains ("br/" ++ res) then v.addTag "reload-changed" else v
+        let st := noteLoad st ("br/" ++ res)
+        let isRe := st.reloaded.contains ("br/" ++ res)
+        let labelled := (rules'.zip ids).map (fun p => ({ p.1 with id := p.2 } : BRule))
+        let sbs : List SBreaker := labelled.map (fun r => { rule := r })
+        let sp := if isRe then { sp with brs := sp.brs.filter (fun p => p.1 != res) } else { sp with brs := World.update sp.brs res sbs }
+        ({ st with w := w', sh := sh', sp := { sp with other := res :: sp.other } }, v.addTag "breaker-rules")
     | _, _ => bad "bad-op"
   | "br.state" =>
     match op.str "res" with
     | .ok res =>
       let m := ",".intercalate ((w.breakers res).map (fun b => s!"{b.rule.id}:{b.state.toStr}"))
       let v := v.expect i opText s!"states={m}" obs
-      let sm := ",".intercalate (((World.lookup sp.brs res).getD []).map (fun b => s!"{b.rule.id}:{b.state.toStr}"))
-      let v := if s!"states={sm}" != obs then v.setViol s!"step={i} breaker states {obs} differ from the state machine's {sm}" else v
+      let v := match World.lookup sp.brs res with
+        | some sbs =>
+          let sm := ",".intercalate (sbs.map (fun b => s!"{b.rule.id}:{b.state.toStr}"))
+          if s!"states={sm}" != obs then v.setViol s!"step={i} breaker states {obs} differ from the state machine's {sm}" else v
+        | none => v
+      -- transparency (C11): the states are those of the history without the reloads of unchanged rules (ids aside)
+      let v := if st.reloaded.contains ("br/" ++ res) then
+          let states := fun (l : List String) => l.map (fun x => ((x.splitOn ":").getLastD ""))
+          let shS := (st.sh.breakers res).map (fun b => b.state.toStr)
+          let implS := states (listOf (obsField obs "states"))
+          if shS != implS then v.setViol s!"step={i} reload not transparent: breaker states {implS}, without the reloads of unchanged rules {shS}" else v.addTag "transparent-checked"
+        else v
       (st, v)
     | _ => bad "bad-op"
   | "build" =>
@@ -630,7 +741,21 @@ def stepCase (st : St) (v : Verdict) (i : Nat) (opText obs : String) : St × Ver
         else if obs.startsWith "blocked" then
           { sp with events := nodeNames.map (fun nm => (nm, tStat, Ev.add .block batch)) ++ sp.events }
         else sp
-      ({ w := w', sp := sp' }, v)
+      -- transparency Spec (C11): the same request on the shadow history (reloads of unchanged rule sets left out) must be
+      -- decided the same way, hold the caller equally long and announce the same breaker transitions
+      let (sh', rsh) := st.sh.build eid res batch inbound args atts
+      let touched := st.reloaded.any (fun k => k.endsWith ("/" ++ res))
+      let v := if !touched then v else
+        let shObs := (match rsh with | .pass => "pass" | .blocked ty _ _ => "blocked type=" ++ ty) ++ s!" dt={sh'.nowNs - st.sh.nowNs}" ++ evStr (sh'.log.drop st.sh.log.length)
+        let implObs := (if obs == "pass" then "pass" else "blocked type=" ++ obsField obs "type") ++ s!" dt={obsField obsFull "dt"}" ++
+          (let e := obsField obsFull "ev"; if e == "" then "" else " ev=" ++ e)
+        -- notifications name the rule id the breaker was first built for; compare them without the ids
+        let strip := fun (x : String) => "|".intercalate ((x.splitOn "|").map (fun (e : String) => match e.splitOn ":" with | [a, _, c] => a ++ ":" ++ c | _ => e))
+        if strip shObs != strip implObs then v.setViol s!"step={i} reload not transparent / changed rule not in effect: with the unchanged-rule reloads left out and the changed rules applied this request gives [{shObs}], the implementation gave [{implObs}]"
+        else v.addTag "transparent-checked"
+      -- keep the shadow on the implementation's clock
+      let sh' := { sh' with nowNs := w'.nowNs }
+      ({ st with w := w', sp := sp', sh := sh' }, v)
     | _, _, _ => bad "bad-op"
   | "exit" =>
     match op.nat "e" with
@@ -672,7 +797,17 @@ def stepCase (st : St) (v : Verdict) (i : Nat) (opText obs : String) : St × Ver
             { sp with open_ := sp.open_.filter (fun e => e.1 != eid),
                       events := (nodeNames.map (fun nm => [(nm, t, Ev.add .complete batch), (nm, t, Ev.add .rt (t - start))])).flatten ++ sp.events }
           | none => sp
-        ({ w := w', sp := sp' }, v.addTag "exit")
+        let (sh', v) := match st.sh.exit eid err with
+          | some sh' =>
+            let touched := match w.entries.find? (fun (e : Nat × Entry) => e.1 == eid) with
+              | some (_, e) => st.reloaded.any (fun k => k.endsWith ("/" ++ e.res))
+              | none => false
+            let strip := fun (x : String) => "|".intercalate ((x.splitOn "|").map (fun (e : String) => match e.splitOn ":" with | [a, _, c] => a ++ ":" ++ c | _ => e))
+            let shEv := evStr (sh'.log.drop st.sh.log.length)
+            let implEv := let e := obsField obs "ev"; if e == "" then "" else " ev=" ++ e
+            (sh', if touched && strip shEv != strip implEv then v.setViol s!"step={i} reload not transparent: completion announces [{implEv}], without the reloads of unchanged rules it announces [{shEv}]" else v)
+          | none => (st.sh, v)
+        ({ st with w := w', sp := sp', sh := sh' }, v.addTag "exit")
       | none => (st, v.expect i opText "noentry" obs)
     | _ => bad "bad-op"
   | "node" =>
